@@ -141,9 +141,10 @@ Definition value_eqb (a b : value) : bool :=
   | _, _ => false
   end.
 
-(* configparser.getboolean: 1/yes/true/on, 0/no/false/off, case-insensitive on
-   the real thing; the configurations of the domain use lower case *)
-Definition parse_bool (s : str) : option bool :=
+(* configparser.getboolean: value.lower() in 1/yes/true/on, 0/no/false/off; anything else: ValueError *)
+Definition lower_c (c : N) : N := if (65 <=? c) && (c <=? 90) then c + 32 else c.
+Definition parse_bool (s0 : str) : option bool :=
+  let s := map lower_c s0 in
   if mem_str s (map lit ["1"; "yes"; "true"; "on"]%string) then Some true
   else if mem_str s (map lit ["0"; "no"; "false"; "off"]%string) then Some false
   else None.
@@ -252,7 +253,10 @@ Fixpoint eval (fuel : nat) (e : expr) (s : state) {struct fuel} : res value :=
       end
   | EIndex a i =>
       match eval f a s with
-      | ROk (VSym x) s1 => ROk (VSym (x ++ lit "[" ++ print_dec i ++ lit "]")) s1
+      | ROk (VSym x) s1 =>
+          (* a field of a looked-up record may be given by the world (an account whose id is 0) *)
+          let key := x ++ lit "[" ++ print_dec i ++ lit "]" in
+          ROk (match lookup key (w_results W) with Some v => v | None => VSym key end) s1
       | ROk _ s1 => ROk (VSym (lit "_")) s1
       | r => r
       end
@@ -432,46 +436,97 @@ Definition run (P : program) (W : world) (c : cfgmap) (entry : str) (args : list
 
 (* ---------------- the finite domain of configurations ---------------- *)
 Inductive tlsmode := TlsAbsent | TlsOff | TlsOn.
-Record opts := Opts { o_chroot : bool; o_uid : bool; o_gid : bool; o_tls : tlsmode; o_pid : bool; o_detach : bool }.
+Inductive boolopt := BChroot | BDetach | BTls.
+Definition boolopt_eqb (a b : boolopt) : bool :=
+  match a, b with BChroot, BChroot | BDetach, BDetach | BTls, BTls => true | _, _ => false end.
+(* o_uid0 / o_gid0: the configured account is one whose numeric id is 0 (toor / wheel).
+   o_alt = Some (b, (s, m)): the boolean option b is spelled s in the file; m is what
+   ConfigParser.getboolean makes of s (None: not a boolean, ValueError) and the flag
+   of that option (o_chroot / o_detach / o_tls) is set accordingly. *)
+Record opts := Opts { o_chroot : bool; o_uid : bool; o_gid : bool; o_tls : tlsmode; o_pid : bool; o_detach : bool;
+                      o_uid0 : bool; o_gid0 : bool; o_alt : option (boolopt * (str * option bool)) }.
+Definition o_bad (o : opts) : bool := match o_alt o with Some (_, (_, None)) => true | _ => false end.
 
 Definition PG : str := lit "pygopherd".
 Definition ROOT : str := lit "/srv/gopher".
 Definition UIDNAME : str := lit "alice".
 Definition GIDNAME : str := lit "staff".
+Definition UID0NAME : str := lit "toor".
+Definition GID0NAME : str := lit "wheel".
 Definition CERT : str := lit "/etc/pg/cert.pem".
 Definition KEY : str := lit "/etc/pg/key.pem".
 Definition PIDFILE : str := lit "/run/pg.pid".
+Definition ZERO : str := lit "0".
+(* symbolic ids handed to setregid / setreuid: element 2 of the pwd / grp record
+   of the configured name; "0" for the accounts whose id is 0 *)
+Definition UIDV : str := lit "pwd.getpwnam(alice)[2]".
+Definition GIDV : str := lit "grp.getgrnam(staff)[2]".
+Definition uidname (o : opts) : str := if o_uid0 o then UID0NAME else UIDNAME.
+Definition gidname (o : opts) : str := if o_gid0 o then GID0NAME else GIDNAME.
+Definition uidv (o : opts) : str := if o_uid0 o then ZERO else UIDV.
+Definition gidv (o : opts) : str := if o_gid0 o then ZERO else GIDV.
+
+Definition spell (o : opts) (b : boolopt) (canon : str) : str :=
+  match o_alt o with
+  | Some (b', (s, _)) => if boolopt_eqb b b' then s else canon
+  | None => canon
+  end.
 
 Definition mkcfg (o : opts) : cfgmap :=
-  [ ((PG, lit "usechroot"), if o_chroot o then lit "yes" else lit "no");
+  [ ((PG, lit "usechroot"), spell o BChroot (if o_chroot o then lit "yes" else lit "no"));
     ((PG, lit "root"), ROOT);
     ((PG, lit "servertype"), lit "ForkingTCPServer");
     ((PG, lit "port"), lit "70");
-    ((PG, lit "detach"), if o_detach o then lit "yes" else lit "no") ]
-  ++ (if o_uid o then [((PG, lit "setuid"), UIDNAME)] else [])
-  ++ (if o_gid o then [((PG, lit "setgid"), GIDNAME)] else [])
+    ((PG, lit "timeout"), lit "60");
+    ((PG, lit "servername"), lit "gopher.example");
+    ((PG, lit "detach"), spell o BDetach (if o_detach o then lit "yes" else lit "no")) ]
+  ++ (if o_uid o then [((PG, lit "setuid"), uidname o)] else [])
+  ++ (if o_gid o then [((PG, lit "setgid"), gidname o)] else [])
   ++ (match o_tls o with
       | TlsAbsent => []
-      | TlsOff => [((PG, lit "enable_tls"), lit "no")]
-      | TlsOn => [((PG, lit "enable_tls"), lit "yes"); ((PG, lit "tls_certfile"), CERT); ((PG, lit "tls_keyfile"), KEY)]
+      | TlsOff => [((PG, lit "enable_tls"), spell o BTls (lit "no"))]
+      | TlsOn => [((PG, lit "enable_tls"), spell o BTls (lit "yes")); ((PG, lit "tls_certfile"), CERT); ((PG, lit "tls_keyfile"), KEY)]
       end)
   ++ (if o_pid o then [((PG, lit "pidfile"), PIDFILE)] else []).
 
 Definition bools : list bool := [false; true].
-Definition all_opts : list opts :=
+Definition base_opts : list opts :=
   flat_map (fun c => flat_map (fun u => flat_map (fun g => flat_map (fun t => flat_map (fun p =>
-    map (fun d => Opts c u g t p d) bools) bools) [TlsAbsent; TlsOff; TlsOn]) bools) bools) bools.
+    map (fun d => Opts c u g t p d false false None) bools) bools) [TlsAbsent; TlsOff; TlsOn]) bools) bools) bools.
+(* accounts whose id is 0, for each present/absent combination *)
+Definition id0_opts : list opts :=
+  flat_map (fun c => map (fun x : (bool * bool) * (bool * bool) =>
+              Opts c (fst (fst x)) (snd (fst x)) TlsAbsent false false (fst (snd x)) (snd (snd x)) None)
+            [((true, false), (true, false)); ((false, true), (false, true)); ((true, true), (true, false));
+             ((true, true), (false, true)); ((true, true), (true, true))]) bools.
+(* the spellings ConfigParser.getboolean accepts, in mixed case, and some it rejects *)
+Definition spellings : list (str * option bool) :=
+  map (fun x : string * option bool => (lit (fst x), snd x))
+    [("on", Some true); ("1", Some true); ("True", Some true); ("YES", Some true); ("tRuE", Some true);
+     ("off", Some false); ("0", Some false); ("False", Some false); ("nO", Some false);
+     ("maybe", None); ("", None); ("2", None); ("yes please", None)]%string.
+Definition meaning (m : option bool) : bool := match m with Some b => b | None => false end.
+Definition chroot_spelled : list opts :=
+  map (fun sm => Opts (meaning (snd sm)) true true TlsAbsent false false false false (Some (BChroot, sm))) spellings.
+Definition spelled_opts : list opts :=
+  chroot_spelled ++
+  map (fun sm => Opts true true true TlsAbsent false (meaning (snd sm)) false false (Some (BDetach, sm))) spellings ++
+  map (fun sm => Opts true true true (match snd sm with Some false => TlsOff | _ => TlsOn end) false false false false
+                      (Some (BTls, sm))) spellings.
+Definition all_opts : list opts := base_opts ++ id0_opts ++ spelled_opts.
 
-(* the eight configurations of init_security proper *)
+(* the configurations of init_security proper *)
 Definition sec_opts : list opts :=
-  flat_map (fun c => flat_map (fun u => map (fun g => Opts c u g TlsAbsent false false) bools) bools) bools.
+  flat_map (fun c => flat_map (fun u => map (fun g => Opts c u g TlsAbsent false false false false None) bools) bools) bools
+  ++ id0_opts ++ chroot_spelled.
 
 Definition all_xcls : list xcls := [XOS; XKey; XRuntime].
 
 (* os.fork returns 0: we follow the child (the parent only logs and exits) *)
 (* what the id queries return when the process is started as plain root *)
 Definition root_id_results : list (str * value) :=
-  map (fun n => (lit n, VInt 0)) ["os.getuid"; "os.geteuid"; "os.getgid"; "os.getegid"]%string.
+  map (fun n => (lit n, VInt 0)) ["os.getuid"; "os.geteuid"; "os.getgid"; "os.getegid";
+                                   "pwd.getpwnam(toor)[2]"; "grp.getgrnam(wheel)[2]"]%string.
 Definition child_results : list (str * value) := (lit "os.fork", VInt 0) :: root_id_results.
 Definition parent_results : list (str * value) := (lit "os.fork", VInt 4242) :: root_id_results.
 
@@ -496,7 +551,8 @@ Definition all_failures_sec (P : program) (o : opts) : list (option (nat * xcls)
 
 (* ---------------- reading a trace ---------------- *)
 Definition is_name (n : string) (e : effect) : bool := str_eqb (ename e) (lit n).
-Definition is_bind (e : effect) : bool := is_name "server_class" e.
+Definition is_bind (e : effect) : bool := is_name "socket.bind" e.
+Definition is_listen (e : effect) : bool := is_name "socket.listen" e.
 Definition is_loadkeys (e : effect) : bool := is_name "context.load_cert_chain" e.
 Definition is_chroot (e : effect) : bool := is_name "os.chroot" e.
 Definition is_setgroups (e : effect) : bool := is_name "os.setgroups" e.
@@ -572,10 +628,6 @@ Definition outcome_aborted_at (k : nat) (o : outcome) : bool :=
 Definition calls_of (tr : list effect) : list effect :=
   filter (fun e => negb (str_eqb (ename e) (lit "config.set"))) tr.
 
-(* symbolic ids handed to setregid / setreuid: element 2 of the pwd / grp record
-   of the configured name *)
-Definition UIDV : str := lit "pwd.getpwnam(alice)[2]".
-Definition GIDV : str := lit "grp.getgrnam(staff)[2]".
 
 (* ---------------- the credentials of the process ---------------- *)
 (* ids are symbolic: "0" is root, UIDV / GIDV the configured account.  The three
@@ -585,20 +637,20 @@ Definition GIDV : str := lit "grp.getgrnam(staff)[2]".
 Record cred := Cred { c_ruid : str; c_euid : str; c_suid : str; c_rgid : str; c_egid : str; c_sgid : str; c_groups : str }.
 Inductive start := StartRoot | StartLauncher | StartDropped.
 Definition all_starts : list start := [StartRoot; StartLauncher; StartDropped].
-Definition ZERO : str := lit "0".
 Definition ROOTGROUPS : str := lit "(0)".
 Definition NOGROUPS : str := lit "()".
-Definition start_cred (st : start) : cred :=
+Definition start_cred (st : start) (o : opts) : cred :=
   match st with
   | StartRoot => Cred ZERO ZERO ZERO ZERO ZERO ZERO ROOTGROUPS
-  | StartLauncher => Cred UIDV ZERO ZERO GIDV ZERO ZERO ROOTGROUPS
-  | StartDropped => Cred UIDV UIDV UIDV GIDV GIDV GIDV NOGROUPS
+  | StartLauncher => Cred (uidv o) ZERO ZERO (gidv o) ZERO ZERO ROOTGROUPS
+  | StartDropped => Cred (uidv o) (uidv o) (uidv o) (gidv o) (gidv o) (gidv o) NOGROUPS
   end.
 Definition id_value (s : str) : value := if str_eqb s ZERO then VInt 0 else VSym s.
-Definition start_results (st : start) : list (str * value) :=
-  let c := start_cred st in
+Definition start_results (st : start) (o : opts) : list (str * value) :=
+  let c := start_cred st o in
   [ (lit "os.getuid", id_value (c_ruid c)); (lit "os.geteuid", id_value (c_euid c));
-    (lit "os.getgid", id_value (c_rgid c)); (lit "os.getegid", id_value (c_egid c)) ].
+    (lit "os.getgid", id_value (c_rgid c)); (lit "os.getegid", id_value (c_egid c));
+    (lit "pwd.getpwnam(toor)[2]", VInt 0); (lit "grp.getgrnam(wheel)[2]", VInt 0) ].
 
 Definition KEEP : str := lit "-1".
 Definition pick (new old : str) : str := if str_eqb new KEEP then old else new.
@@ -645,11 +697,11 @@ Definition cred_list (c : cred) : list str :=
 
 (* what the configuration asks for *)
 Definition wanted_cred (o : opts) (c : cred) : cred :=
-  Cred (if o_uid o then UIDV else c_ruid c) (if o_uid o then UIDV else c_euid c) (if o_uid o then UIDV else c_suid c)
-       (if o_gid o then GIDV else c_rgid c) (if o_gid o then GIDV else c_egid c) (if o_gid o then GIDV else c_sgid c)
+  Cred (if o_uid o then uidv o else c_ruid c) (if o_uid o then uidv o else c_euid c) (if o_uid o then uidv o else c_suid c)
+       (if o_gid o then gidv o else c_rgid c) (if o_gid o then gidv o else c_egid c) (if o_gid o then gidv o else c_sgid c)
        (if o_uid o || o_gid o then NOGROUPS else c_groups c).
 
 Definition run_initialize_from (P : program) (st : start) (o : opts) (fail : option (nat * xcls)) : outcome :=
-  run P (World fail ((lit "os.fork", VInt 0) :: start_results st)) (mkcfg o) (lit "initialize") [VStr (lit "pygopherd.conf")].
+  run P (World fail ((lit "os.fork", VInt 0) :: start_results st o)) (mkcfg o) (lit "initialize") [VStr (lit "pygopherd.conf")].
 Definition run_security_from (P : program) (st : start) (o : opts) (fail : option (nat * xcls)) : outcome :=
-  run P (World fail (start_results st)) (mkcfg o) (lit "init_security") [VSym (lit "config")].
+  run P (World fail (start_results st o)) (mkcfg o) (lit "init_security") [VSym (lit "config")].
